@@ -8,8 +8,12 @@ is delivered as a marker record *after* the records – possibly partial – tha
 the record layer (`buildStep`, `goRecs`) then fails at exactly the point where the Rust does.
 
 `skip!` is strict (`pos < len` after the skip); `read_u!` is not (`pos <= len`).
-Not modelled: the u32 `runcounts`/`programcounts` sums of the summary records (they can only
-overflow with more than 2^32 recorded runs).
+Not modelled: the u32 sums `runcounts` / `programcounts` of the summary records (both records are
+`DRec.other`).  Since /repo 8b2da6c `runcounts` is summed with `wrapping_add` (before, a gcda with
+two OBJECT_SUMMARY records of run count 2^32-1 panicked with overflow checks on: corpus/C14
+gcda-runcounts-overflow), so it cannot crash; `programcounts += 1` would need 2^32 PROGRAM_SUMMARY
+records, i.e. a file of more than 48 GiB; and neither value is observable in the result of
+`Gcno::compute` (only `dump` prints them), so leaving them out changes no outcome of `computeBytes`.
 Core Lean only.
 -/
 import GrcovModel.Gcno
